@@ -109,7 +109,27 @@ func followUpChain(g *gen.G, variant int) ([]*gen.Change, []gen.Plant, string) {
 			plants = append(plants, gen.Plant{Kind: "expr", Text: fmt.Sprintf(format, n[0], n[1])})
 		}
 	}
-	switch variant % 4 {
+	switch variant % 6 {
+	case 4:
+		// an earlier change tries its metavariable on a node, fails there, and rewrites a site inside that node; a later
+		// change binds the node: it stands for the code as it is now
+		plant("newServer(%s.Close()).Run(%s)")
+		return []*gen.Change{
+			mk("c01-chain-1", []gen.MetaVar{q}, "«cq».Close()", "«cq».Shutdown()"),
+			mk("c01-chain-2", []gen.MetaVar{q, p}, "«cq».Run(«cp»)", "run(«cq», «cp»)"),
+		}, plants, "binds-a-node-an-earlier-change-tried-and-rewrote-inside"
+	case 5:
+		// the same, and the later change compares two such nodes: after the earlier changes they differ (or agree)
+		for i := 0; i < 1+g.R.Intn(2); i++ {
+			n := names[g.R.Intn(len(names))]
+			plants = append(plants, gen.Plant{Kind: "expr", Text: fmt.Sprintf("wrapG(%s.V1()).Equal(wrapG(%s.V0()))", n[0], n[0])})
+			plants = append(plants, gen.Plant{Kind: "expr", Text: fmt.Sprintf("wrapG(%s.V2()).Equal(wrapG(%s.V1()))", n[1], n[1])})
+		}
+		return []*gen.Change{
+			mk("c01-chain-1", []gen.MetaVar{q}, "«cq».V1()", "«cq».V2()"),
+			mk("c01-chain-2", []gen.MetaVar{q}, "«cq».V0()", "«cq».V1()"),
+			mk("c01-chain-3", []gen.MetaVar{p}, "«cp».Equal(«cp»)", "sameBoth(«cp»)"),
+		}, plants, "compares-nodes-earlier-changes-tried-and-rewrote-inside"
 	case 0:
 		plant("chainOld(%s, %s)")
 		return []*gen.Change{
@@ -166,6 +186,10 @@ func runC01(ctx *core.Ctx, idx int) *core.Result {
 	r := ctx.Rand("c01", idx)
 	g := gen.NewG(r)
 	g.Comment = r.Intn(3) == 0
+	if idx%500 == 77 {
+		// a loop pattern with a written init / post statement never rewrites a loop with another one (shared with C04)
+		forWrittenHeaderCase(ctx, idx/500, res, "C01")
+	}
 	c := g.RandomChange()
 	if idx%3 == 1 {
 		// pattern abstracted from a generated code fragment: reaches every node kind on both sides
